@@ -415,6 +415,12 @@ class PageTemplate(BaseTemplate):
                 (";{}={}".format(attr, v)).encode('utf-8')
             )
 
+        # XML and HTML compilation differ (boolean attributes, line
+        # endings).  Which one applies follows from the body - or, when
+        # the body does not say, from ``default_content_type``.
+        xml = getattr(self, 'content_type', None) == 'text/xml'
+        digest.update((";xml={}".format(xml)).encode('utf-8'))
+
         return digest.hexdigest()[:32]
 
     def _builtins(self) -> dict[str, Any]:
